@@ -5,3 +5,4 @@ import Proofs.C09
 import Proofs.C18
 import Proofs.C18Filter
 import Proofs.C18Provenance
+import Proofs.C06
